@@ -206,7 +206,10 @@ class Engine(Hashable):
         """
         from ._transfer import Transfer
 
-        if simplified := Transfer.simplify(target, self):
+        if target.engine != self and (simplified := Transfer.simplify(target, self)):
+            # Only look for a round trip to undo when there is a transfer to
+            # perform at all; a relation already in this engine is returned
+            # as-is, as documented.
             target = simplified
         if target.engine == self:
             if payload is not None:
